@@ -21,7 +21,9 @@ func GenCfg(t *rapid.T) Cfg {
 			c.DbMap[from] = to
 		}
 	}
-	if c.Restore {
+	// the bidirectional snapshot path: every key travels in its own MULTI / marker / value / EXEC
+	c.Bisync = rapid.IntRange(0, 3).Draw(t, "bisync") == 0
+	if c.Restore && !c.Bisync {
 		c.BadFormatEvery = rapid.SampledFrom([]int{0, 0, 0, 0, 1, 2, 3}).Draw(t, "badFormatEvery")
 	}
 	return c
